@@ -1,11 +1,14 @@
 from props import TB_COMMON
 
 HDRVM = "From TeraV Require Import Model.Value Model.Instr Model.VM Corr.CorrVM."
+HDRST = "From TeraV Require Import Model.Value Model.Instr Model.VM Spec.Stmt Corr.CorrC03."
 CFG = {
     "bin": "c03",
-    "corr": ["CorrVM"],
+    "corr": ["CorrVM", "CorrC03"],
     "families": {
         "vm": {"header": HDRVM, "model_fn": "model_vm", "rule": "F"},
+        "compile": {"header": HDRST, "model_fn": "model_compile", "rule": "F"},
+        "ref": {"header": HDRST, "model_fn": "model_ref", "rule": "F"},
     },
     "rule_text": "vm: one case per (finalized template or template set, entry template, optional block, context): the REAL chunks and block "
                  "lineage (hook tera::verif::template_listing) are run on Model/VM.v and the output text / error class compared with "
@@ -13,24 +16,43 @@ CFG = {
                  "(if/elif/else, for over arrays/strings/maps with else, break/continue, set/set_global/set-blocks/filter sections), "
                  "generated base/mid/child/include sets; 9 contexts; .html and .txt names (autoescape on/off). Non-trivial = renders "
                  "to more than 2 characters from a chunk of >= 6 instructions. Cases using built-ins outside Model/World0.v are skipped "
-                 "and counted.",
+                 "and counted. "
+                 "compile: one case per generated template body (statement trees of Spec/Stmt.v printed as template source): "
+                 "Model/Compile.v `compile` vs the REAL compiler's listing BEFORE Chunk::optimize (hook tera::verif::chunk_listings), "
+                 "instruction by instruction incl. every back-patched jump target; non-trivial = >= 2 jump instructions. "
+                 "ref: one case per (generated library of 1-3 templates with includes, context, global context via tera.global_context()): "
+                 "the reference interpreter Spec/Stmt.v `render` vs tera.render (text; errors as a class), and inside Coq the compiled "
+                 "library on Model/VM.v vs the reference interpreter (the statement of compile_correct, evaluated). Generator: mostly bound "
+                 "variables with truthy/falsy mixes, v/w shadowed across loop variable/set/set_global/includer/context/global, includes in "
+                 "captures in loops, break/continue under if under nested loops, loops over a string with 3- and 4-byte characters, "
+                 "single-entry and empty maps, empty arrays (else bodies), loop.*; non-trivial = renders > 3 characters from >= 5 statements.",
     "trusted_base": TB_COMMON + [
         "axioms: none",
         "Model/VM.v is a hand port of interpret(); Model/World0.v models only default/upper(ASCII)/safe/length, defined/undefined, "
         "==, <, in on ints/strings/bools/containers, no arithmetic, no components: the correspondence is restricted to that subset",
         "HashMap iteration order: the harness prints maps in their real iteration order, the model iterates in list order",
+        "compile_correct hypotheses: non-failing appending writer (C18 owns failing writers); kwargs keys are strings; filters do not read "
+        "the VM state; trees are what the parser accepts (Compile.wf_stmt: break/continue in a loop and not across a capture, loop.* inside "
+        "a for, user variables not named __tera_context/__tera_loop_*); includes point forward in the library list (acyclic, C11)",
+        "the statement-tree printer of the harness (tree -> template source and tree -> Gallina term) is trusted to print the same tree; "
+        "the `compile` family would expose a divergence as a listing mismatch",
     ],
-    "modelled": ["vm/interpreter.rs interpret (all 56 instructions), render_include, render_component (shape), render_to",
+    "modelled": ["parsing/compiler.rs compile_node/compile_expr/compile_kwargs for the statement language of Spec/Stmt.v (Model/Compile.v)",
+                 "vm/interpreter.rs interpret (all 56 instructions), render_include, render_component (shape), render_to",
                  "vm/state.rs get_value, store_local/global, dump_context; vm/for_loop.rs ForLoop, iterators, loop.*"],
-    "assumptions": ["fuel 6000 steps per render in the model", "floats and bytes are not generated"],
+    "assumptions": ["fuel 6000 steps per render in the model (vm family), 20000 (ref family, compiled library on the VM)", "floats and bytes are not generated"],
     "harness_timeout": 1500,
 }
 
 MANIFEST = (
-    "Rocq proof over a concrete VM model (scope chain, loop counters, assignment scoping); model tied to the interpreter by running real finalized chunks on it",
+    "Rocq proof: compiler port + VM port refine a documentation-level reference interpreter (compile_correct, all statement trees); three correspondences (VM on real chunks, compiler listings, reference vs engine)",
     "Theorems state the documented scoping order, the loop.* counters for every container and every iteration, and where assignments live, "
-    "for all states of the Gallina port of the VM; the port is validated every run by executing the real compiled chunks (incl. inheritance, "
-    "includes, render_block) on it and comparing outputs and error classes with the engine. Partial: the per-construct refinement theorems "
-    "(for-loop body once per element, capture exactness, include freshness as run-level lemmas) are being extended.",
+    "for all states of the Gallina port of the VM; compile_correct: for every library of statement trees (if/elif/else, for/else over arrays, "
+    "strings, maps, break/continue, set/set_global, set blocks, filter sections, includes; any nesting), every context/global context, the "
+    "compiled code (port of compile_node with back-patched targets) run on the VM port yields exactly the reference interpreter's text or both "
+    "fail (induction on statements with a code-at-pc invariant, on items for loops, on the library for includes; exact fuel accounting). "
+    "Run-level: include_state_is_fresh, nothing_survives_render for every chunk. Partial: capture exactness is proved for compiled bodies, "
+    "not arbitrary instruction segments. The three ports are validated every run: real finalized chunks on the VM port, real pre-optimisation "
+    "listings vs the compiler port, tera.render vs the reference interpreter.",
     "§6 C03",
 )
